@@ -769,6 +769,15 @@ class Interp:
                 return (x in o) if last == 'contains' else int(x in o)
         if k in ('CXXConstructExpr', 'CXXTemporaryObjectExpr') and (n.get('cls') or '').startswith(('std::unordered_map', 'std::map')) and not n.get('args'):
             return {}
+        if k in ('CXXConstructExpr', 'CXXTemporaryObjectExpr') and (n.get('cls') or '').startswith(('std::unordered_map', 'std::map')) and n.get('args'):
+            a0 = self.eval(fn, S[n['args'][0]], env)
+            if isinstance(a0, dict) and not isinstance(a0, Obj):
+                return dict(a0)
+            if isinstance(a0, (list, tuple)) and all(isinstance(x, (list, tuple)) and len(x) == 2 for x in a0):
+                return {(bytes(x[0]) if isinstance(x[0], (bytes, bytearray)) else x[0]): x[1] for x in a0}      # initializer list of pairs
+            if isinstance(a0, (list, tuple)) and len(a0) == 2 and not isinstance(a0[0], (list, tuple)):
+                return {(bytes(a0[0]) if isinstance(a0[0], (bytes, bytearray)) else a0[0]): a0[1]}                 # a single pair, braces elided by the AST
+            raise OutOfFragment('map constructor form at %s' % fn.loc(n))
         if k in ('CXXMemberCallExpr', 'CXXOperatorCallExpr') and cs.startswith(('std::unordered_map::', 'std::map::')):
             # maps as plain python dicts (keys: bytes / ints / tuples)
             if k == 'CXXMemberCallExpr' and 'obj' in n:
